@@ -56,6 +56,7 @@ def main():
     chk.stubs += F.STUBS
     chk.require_goals(["conflict", "clean-two-sided", "nested-decision", "custom-conflict"])
     chk.assumptions += ["schema validation judges the model instance of each path (the schemas do not constrain value types)"]
+    F.f16_witness(chk, known)
     return chk.finish()
 
 
